@@ -53,6 +53,7 @@ Definition f_init (c : fcfg) : result fstate :=
     Ok {| f_temp := f_T0 c; f_temp_inv := 1 / f_T0 c; f_period := None; f_decr := None |}
   else
     let p := (f_n_ann c / (f_n_plateau c - 1))%Z in
+    if (p <? 1)%Z then Err InputError else
     let d := ((f_T0 c - 1) / Z2F (f_n_plateau c - 1))%float in
     if (d <=? 0)%float then Err InputError
     else Ok {| f_temp := f_T0 c; f_temp_inv := 1 / f_T0 c; f_period := Some p; f_decr := Some d |}.
